@@ -61,6 +61,38 @@ func VerifC14_sign_then_verify() {
 	vReach("verified")
 }
 
+// keys of small order in canonical and non-canonical encodings (the identity and the point of
+// order two), with S = 0 and R one of their encodings: the verdict is then decided by the parity
+// of the challenge, a different one for each of five messages, so that a verifier which hashes
+// another encoding of the key than the standard one does is caught on some message natively too
+func VerifC14_glue_verify_small_order() {
+	vUnwind(140)
+	vUseModels("edabs")
+	mk := func(first, rest, last byte) []byte {
+		b := make([]byte, 32)
+		for i := range b {
+			b[i] = rest
+		}
+		b[0], b[31] = first, last
+		return b
+	}
+	encs := [][]byte{
+		mk(1, 0, 0), mk(1, 0, 0x80), mk(0xee, 0xff, 0x7f), mk(0xee, 0xff, 0xff), // the identity
+		mk(0xec, 0xff, 0x7f), mk(0xec, 0xff, 0xff), // (0, -1)
+	}
+	pk := encs[vSplit(vInt("key", 0, 5), 0, 5)]
+	sig := make([]byte, 64)
+	copy(sig, encs[vSplit(vInt("r", 0, 5), 0, 5)])
+	base := vBytesC("msg", 0, 1)
+	for i := 0; i < 5; i++ {
+		msg := append(append([]byte{}, base...), byte(i))
+		got := Verify(pk, msg, sig)
+		want := stded.Verify(stded.PublicKey(pk), msg, sig)
+		vAssert(got == want, "verdict-equals-stdlib-on-small-order-keys")
+	}
+	vReach("small-order")
+}
+
 type c14Reader struct {
 	failAt, calls int
 	short         bool
